@@ -87,6 +87,7 @@ contract(
 # find_first_hash_entry_for_path: with a format -> first entry of that format; without -> very first entry
 contract(
     "ascmhl.history.MHLHistory.find_first_hash_entry_for_path",
+    slices=4,
     params={"relative_path": "str", "hash_format": "str?"},
     returns="MHLHashEntry?",
     pure=True,
@@ -135,6 +136,7 @@ def wit(bound):
 
 contract(
     "ascmhl.history.MHLHistory.find_existing_hash_formats_for_path",
+    slices=4,
     params={"relative_path": "str"},
     returns="list[str]",
     locals={"hash_formats": "list[str]"},
@@ -211,6 +213,7 @@ def ENT(j, k):
 POST_E = "({e}.action == ('verified' if old({e}.action) == 'new' else old({e}.action)))"
 contract(
     "ascmhl.history.MHLHistory._validate_new_hash_list",
+    slices=4,
     params={"hash_list": "MHLHashList"},
     returns="bool",
     modifies=["*.action"],
